@@ -7,6 +7,7 @@ import ViaModel.Auth
 import ViaModel.Encode
 import ViaModel.ReqRx
 import ViaModel.RespRx
+import ViaModel.SimDriver
 /-
   Line-protocol driver: executes the same operation scripts as `harness/rx_driver.cpp` on the
   model and prints the same canonical result lines.
@@ -36,6 +37,7 @@ structure St where
   router : Option (List Router.Route) := none
   hm : Option (HM.Map Int) := none
   rx : RxSt := .none
+  sim : Option Sim.World := none
 
 def insertSorted (p : Bytes × Bytes) : List (Bytes × Bytes) → List (Bytes × Bytes)
   | [] => [p]
@@ -297,18 +299,40 @@ def stepLine (st : St) (line : String) : St × List String :=
   let ws := (line.splitOn " ").filter (· != "")
   match ws with
   | [] => (st, [])
-  | ["case", id] => ({}, [s!"case {id}"])
-  | _ =>
-    match rxOp st ws with
-    | some r => r
+  | ["case", id] =>
+    -- the harness prints `end` after the last operation of a simulation case
+    let fin := match st.sim with
+      | some w => ["end"] ++ (if w.sendWhileTransmitting then ["kf send-while-transmitting"] else [])
+      | none => []
+    ({}, fin ++ [s!"case {id}"])
+  | "server" :: rest =>
+    match st.sim with
+    | some w => ({ st with sim := some w }, ["bad-op", ";"])
     | none =>
-      match pureOp st ws with
+      let w := Sim.mkServer rest
+      ({ st with sim := some { w with out := [] } }, w.out.reverse ++ [";"])
+  | _ =>
+    match st.sim with
+    | some w =>
+      let w' := Sim.simOp { w with out := [] } ws
+      ({ st with sim := some { w' with out := [] } }, w'.out.reverse ++ [";"])
+    | none =>
+      match rxOp st ws with
       | some r => r
-      | none => (st, ["bad-op"])
+      | none =>
+        match pureOp st ws with
+        | some r => r
+        | none => (st, ["bad-op"])
 
 partial def loop (h : IO.FS.Stream) (out : IO.FS.Stream) (st : St) : IO Unit := do
   let line ← h.getLine
-  if line.isEmpty then return ()
+  if line.isEmpty then
+    match st.sim with
+    | some w =>
+      out.putStrLn "end"
+      if w.sendWhileTransmitting then out.putStrLn "kf send-while-transmitting"
+    | none => pure ()
+    return ()
   let line := line.trimAscii.toString
   if line.isEmpty || line.startsWith "#" then
     loop h out st
